@@ -394,6 +394,7 @@ func (p *BlockParser) readline() bool {
 
 	eolEnd := -1
 	for {
+		chunkSize, maxBlockSize := verifLimits(chunkSize, maxBlockSize)
 		// Check if we have a line ending available.
 		if i := bytes.IndexAny(p.buf[p.i:], "\r\n"); i >= 0 {
 			eolStart := p.i + i
